@@ -84,6 +84,12 @@ Types == << Struct(<<Field(A_, Prim("string")), Field(Id, Prim("int")), Field(AE
             Struct(<<EmbeddedUntagged(Ptr(Struct(<<Field(A_, Prim("string"))>>))), Field(A_, Prim("string"))>>),
             Struct(<<Embedded(Cc, Ptr(Struct(<<Field(D_, Prim("int")), Field(CountA, Prim("int"))>>))), Field(CountA, Prim("int"))>>),
             Slice(Struct(<<Embedded(Rel(<<Step("child", T_any)>>), Struct(<<Field(Rel(<<Self>>), Prim("string"))>>)), Field(Rel(<<Self>>), Prim("string"))>>)),
+            \* two declared types of the same name with different tags, used one after the other in one process
+            Declared("Item", <<Field(A_, Prim("string")), Untagged(Prim("string"))>>), Declared("Item", <<Field(B_, Prim("string")), Untagged(Prim("string"))>>),
+            Slice(Declared("Item", <<Field(B_, Prim("string")), Untagged(Prim("string"))>>)), Slice(Declared("Item", <<Field(A_, Prim("string")), Untagged(Prim("string"))>>)),
+            \* the target is a chain of pointers ending in a struct with untagged fields (handed over nil, and fully allocated)
+            Ptr(Ptr(Struct(<<Field(Id, Prim("int32")), Untagged(Prim("string")), Untagged(Prim("int"))>>))), Ptr(Struct(<<Field(A_, Prim("string")), Untagged(Prim("string"))>>)),
+            Ptr(Ptr(Ptr(Struct(<<Untagged(Prim("int")), Field(CountA, Prim("int"))>>)))),
             Bound2, Struct(<<Field(Cc, Bound2)>>), Slice(Struct(<<Field(Rel(<<Self>>), Ptr(Bound2))>>)),
             Ptr(Struct(<<Field(A_, Prim("string"))>>)), Ptr(Ptr(Struct(<<Field(Id, Prim("int32"))>>))),
             Slice(Prim("string")), Slice(Prim("int")), Slice(Prim("float32")), Slice(Prim("bool")), Slice(Ptr(Prim("string"))),
